@@ -17,7 +17,8 @@ from .. import gen
 from ..common import cnat, cq, cz, cbool, clist, coq_eval
 from ..impl import Impl
 
-IMPORTS = ['Base.Util', 'Model.Dendrogram', 'Model.Cuts', 'Model.Hierarchy', 'Model.Paris']
+GEN_FILES = ['ParisSrc.v']     # how the source computes the height of a merge, C type of the similarities
+IMPORTS = ['Base.Util', 'Model.Dendrogram', 'Model.Cuts', 'Model.Hierarchy', 'Model.Paris', 'Gen.ParisSrc']
 HINF = Fraction(10 ** 9)        # stands for float('inf') in the models
 TOL32 = 2e-4                    # float32 similarity kernel (DESIGN.md App. C)
 MARGIN = Fraction(1, 10000)
@@ -39,6 +40,19 @@ Definition cvb (o : option (result (dendrogram * dendrogram * dendrogram))) :=
   | Some (Ok (D, Dr, Dc)) => Ok [cvd D; cvd Dr; cvd Dc]
   | Some (Err e) => Err e
   | None => Err IndexError
+  end.
+(* the model of the CURRENT source: clamp and float width as extracted by harness/translators/paris.py *)
+Definition src_rounding : rounding := if paris_src_float32 then ieee else {| r32 := rne 53; r64 := rne 53 |}.
+Definition paris_src (R : rounding) := paris_fit_gen R paris_src_clamp.
+Definition paris_src_bipartite (R : rounding) (hinf : Q) (degree reorder : bool) (n1 n2 : nat) (B : entries) :=
+  match paris_src R hinf degree reorder (n1 + n2) (biadj_block n1 B) with
+  | None => None
+  | Some (Err e) => Some (Err e)
+  | Some (Ok (D, _, _)) =>
+      match split_dendrogram D n1 n2 with
+      | Ok (Dr, Dc) => Some (Ok (D, Dr, Dc))
+      | Err e => Some (Err e)
+      end
   end.
 Fixpoint leqb (a b : list nat) : bool :=
   match a, b with
@@ -583,7 +597,7 @@ def run(ctx, scratch):
         for (fam, n, coo) in pc:
             for degree in (True, False):
                 for ro in (False, True):
-                    exprs.append('cvp (paris_fit exact %s %s %s %d %s)' % (cq(HINF), cbool(degree), cbool(ro), n, centries(coo)))
+                    exprs.append('cvp (paris_src exact %s %s %s %d %s)' % (cq(HINF), cbool(degree), cbool(ro), n, centries(coo)))
                     meta.append((fam, n, coo, degree, ro))
         vals = coq_eval('c07px', IMPORTS, exprs, prelude=PRELUDE, shard=60)
         compared = dropped = 0
@@ -625,7 +639,7 @@ def run(ctx, scratch):
         for (fam, n, coo) in pi:
             degree = rng.random() < 0.6
             ro = rng.random() < 0.5 or fam.startswith('corpus')
-            exprs.append('cvp (paris_fit ieee %s %s %s %d %s)' % (cq(HINF), cbool(degree or fam.startswith('corpus')), cbool(ro), n, centries(coo)))
+            exprs.append('cvp (paris_src src_rounding %s %s %s %d %s)' % (cq(HINF), cbool(degree or fam.startswith('corpus')), cbool(ro), n, centries(coo)))
             meta.append((fam, n, coo, degree or fam.startswith('corpus'), ro))
         vals = coq_eval('c07pf', IMPORTS, exprs, prelude=PRELUDE, shard=8)
         for (fam, n, coo, degree, ro), v in zip(meta, vals):
@@ -644,7 +658,7 @@ def run(ctx, scratch):
 
         # ---- bipartite: fit on the block adjacency + _split_vars (IEEE model, exact comparison)
         pb = [b for b in bips if b[0] + b[1] <= 7][: (25 if quick else 150)]
-        exprs = ['cvb (paris_fit_bipartite ieee %s true true %d %d %s)' % (cq(HINF), r_, c_, centries(coo)) for (r_, c_, coo) in pb]
+        exprs = ['cvb (paris_src_bipartite src_rounding %s true true %d %d %s)' % (cq(HINF), r_, c_, centries(coo)) for (r_, c_, coo) in pb]
         vals = coq_eval('c07pb', IMPORTS, exprs, prelude=PRELUDE, shard=6)
         for (r_, c_, coo), v in zip(pb, vals):
             r = impl.call('c07', 'fit', dict(algo='Paris', opts=dict(weights='degree', reorder=True), m=spec(r_, c_, coo),
